@@ -373,6 +373,14 @@ def known_signatures(prop):
     return {f["signature"]: f for f in load_findings() if f.get("status") == "known"}
 
 
+def replay_as_rerun(v, replay_path):
+    """Replay for checks whose cases are all derived from (seed, tier): the check is run again with the seed recorded in the replay
+    file; its evidence file is left alone. (A violation is reproduced when the re-run reports the same signature.)"""
+    rp = json.load(open(replay_path)).get("replay", {})
+    os.environ["VERIF_SEED"] = str(rp.get("seed", seed()))
+    v.write_evidence = False
+
+
 # --------------------------------------------------------------------------
 # verdict
 # --------------------------------------------------------------------------
@@ -414,6 +422,9 @@ class Verdict:
         if self.violations:
             os.makedirs(REPLAYS, exist_ok=True)
             for i, (sig, desc, replay) in enumerate(self.violations[:5]):
+                if isinstance(replay, dict):
+                    replay.setdefault("seed", seed())
+                    replay.setdefault("tier", self.tier)
                 path = os.path.join(REPLAYS, "%s-%d-%d.json" % (self.prop, seed(), i))
                 with open(path, "w") as f:
                     json.dump(dict(property=self.prop, signature=sig, description=desc, replay=replay), f, indent=1)
